@@ -61,7 +61,18 @@ def cases(draw):
         link = {'at': draw(st.sampled_from([''] + subdirs)), 'to': draw(st.sampled_from(subdirs)),
                 'name': draw(st.sampled_from(['zq-fixtures', 'node_modules', '__pycache__', '.git', '1zqlink', 'zq.link',
                                               'CVS']))}
+    # --ignore_dir NAME (repeatable) *adds* to the built-in list; the deprecated positional arguments
+    # "MODULE [TEST]" add to -m / -t, with "." as the documented placeholder for "no module filter"
+    alldirs = sorted({p.split(os.sep)[-1] for p in subdirs})
+    ignore = []
+    if draw(st.integers(0, 3)) == 0:
+        ignore = draw(st.lists(st.sampled_from(alldirs + ['build', 'zqnone']), min_size=1, max_size=2, unique=True))
+    positional = []
+    if draw(st.integers(0, 3)) == 0:
+        pos_mod = draw(st.sampled_from(['.', '.', 'tests_', 'zq'] + [re.escape(s_) + '$' for s_ in stems[:2]]))
+        positional = [pos_mod] + draw(st.sampled_from([[], ['.'], ['test']]))
     return {'tree': tree, 'roots': roots, 'mode': extra, 'pkg_roots': pkg_roots, 'link': link,
+            'ignore_dir': ignore, 'positional': positional,
             'tests_pattern': draw(st.sampled_from(TESTS_PATTERNS)),
             'file_pattern': draw(st.sampled_from(FILE_PATTERNS)),
             'module': mods,
@@ -113,7 +124,7 @@ def expected_files(case, base):
             if not fstree.identifier(nm):
                 excluded.setdefault('non-identifier-dir', []).append(nm)
                 continue
-            if nm in DEFAULT_IGNORE or nm in IGNORE_FOLDERS:
+            if nm in DEFAULT_IGNORE or nm in IGNORE_FOLDERS or nm in (case.get('ignore_dir') or ()):
                 excluded.setdefault('ignored-dir', []).append(nm)
                 continue
             yield from walk(os.path.join(rel, nm) if rel else nm)
@@ -126,8 +137,12 @@ def expected_files(case, base):
             seen.add(f)
             found.append(f)
     out = []
+    module_pats = list(case['module'])
+    pos = case.get('positional') or []
+    if pos and pos[0] != '.':
+        module_pats.append(pos[0])
     for f in found:
-        if case['module'] and not any(model.accepts(case['module'], nm) for nm in module_name(f)):
+        if module_pats and not any(model.accepts(module_pats, nm) for nm in module_name(f)):
             excluded.setdefault('module-filter', []).append(f)
             continue
         out.append(f)
@@ -136,7 +151,7 @@ def expected_files(case, base):
 
 class Discover(Part):
     name = 'discover'
-    examples = {'quick': 1600, 'thorough': 30000}
+    examples = {'quick': 4800, 'thorough': 60000}
 
     def strategy(self, tier):
         return cases()
@@ -169,6 +184,13 @@ class Discover(Part):
                 args += ['--package-path', os.path.join(base, sd), sd.replace(os.sep, '.')]
             for m in case['module']:
                 args += ['-m', m]
+            for nm in case.get('ignore_dir') or ():
+                args += ['--ignore_dir', nm]
+                labels.append('--ignore_dir')
+            if case.get('positional'):
+                args += list(case['positional'])
+                labels.append('positional-filters' + (':dot' if case['positional'][0] == '.' else '')
+                              + ('+m' if case['module'] else ''))
             orders = []
             for k, seed in enumerate(case['order_seeds']):
                 trace = os.path.join(tmp, 'trace%d.jsonl' % k)
@@ -244,7 +266,7 @@ class C14(Prop):
                   'second dotted name); -s/--package not generated here (C03 does).')
     rule = ('Hypothesis trees (depth <=3, 0..4 files and 0..3 sub-directories per directory from identifier/odd/ignored '
             'name pools), 6 tests-patterns x 5 file-patterns, root modes none/dup/nested/dup+nested/test-path-dup, '
-            'optional -m patterns, two scandir permutations + creation permutation. Non-trivial = files excluded by >=2 '
+            'optional -m patterns, --ignore_dir names, deprecated positional MODULE [TEST] filters (incl. the "." placeholder), two scandir permutations + creation permutation. Non-trivial = files excluded by >=2 '
             'different rules AND overlapping roots AND >=1 module discovered.')
     assumptions = ('"sorted by path" is read as: independent of enumeration order, ascending inside a directory, '
                    'sub-directories visited in ascending order after the directory\'s own files',)
